@@ -185,6 +185,8 @@ package types
 //@   modifies *
 //@   opt assumecallreqs
 //@   ensures [existingBucketsKeepTheirVotes] forall k string :: old(has(voteSet.votesByBlock, k)) ==> has(voteSet.votesByBlock, k) && voteSet.votesByBlock[k] == old(voteSet.votesByBlock[k])
+//@   ensures [oneClaimPerPeer] old(has(voteSet.peerMaj23s, peerID)) && old(voteSet.peerMaj23s[peerID]) != blockID ==> err != nil && voteSet.peerMaj23s[peerID] == old(voteSet.peerMaj23s[peerID])
+//@   ensures [aRefusedClaimAllocatesNothing] err != nil ==> !called(newBlockVotes)
 
 //@ func (voteSet *VoteSet) Size() (r int)
 //@   for C18
@@ -979,6 +981,10 @@ package types
 //@ spec func evHashOf(e Evidence) common.Hash
 //@ trusted func (e Evidence) Hash() (r common.Hash)
 //@   ensures r == evHashOf(e)
+//@ trusted func (e Evidence) Height() (r uint64)
+//@   modifies nothing
+//@ trusted func (e Evidence) Time() (r time.Time)
+//@   modifies nothing
 // (interface method: pure; refined at call sites by DuplicateVoteEvidence.ValidateBasic)
 //@ trusted func (e Evidence) ValidateBasic() (err error)
 //@   modifies nothing
